@@ -1,5 +1,5 @@
 (* C07 - subscribers are called exactly once per matching event with the right arguments.  Statements only. *)
-From RU Require Import Base Types Defs BitReader World Run WireSpec LwwProofs DispatchProofs NestedNotify.
+From RU Require Import Base Types Defs BitReader World Run WireSpec LwwProofs DispatchProofs NestedNotify Layout LayoutProofs.
 Open Scope N_scope.
 
 (* a method call nobody subscribed to has no effect and is NOT decoded: any payload bytes, decodable or not *)
@@ -80,3 +80,10 @@ Theorem C07_path_covers_spec : forall k h, path_covers k h = true <-> h = k \/ e
 Proof. exact path_covers_spec. Qed.
 Print Assumptions C07_nested_apply_announces.
 Print Assumptions C07_path_covers_spec.
+
+(* the byte layout of every packet class is a TABLE (Layout.class_layout) that the translator tools/gen_packets.py regenerates from the
+   __init__ of the packet classes on every run (generated instance theorems: translated layout = class_layout); the model's step function
+   is the table-driven one: the header fields are read by the generic parser from that table and handed to the class's handler *)
+Theorem C07_step_is_table_driven : forall St w c pl, step_class St w c pl = step_layout St w c pl.
+Proof. exact step_class_is_layout. Qed.
+Print Assumptions C07_step_is_table_driven.
